@@ -183,10 +183,10 @@ Proof. vm_compute. repeat split; reflexivity. Qed.
 
 (* ---------- tie to the source: the part of the model this property rests on is what /verif/translate derives from
    /repo's Go source on this run (Generated/*.v are rewritten before every build; see DESIGN.md section 9) ---------- *)
-From HC.Generated Require Import SrcHit.
-From HC.Proofs Require Import TieHit.
-Theorem C01_source_decision : forall q e now, src_decide_hit q e now = decide_hit q e now.
-Proof. exact tie_decide_hit. Qed.
+From HC.Generated Require Import SrcEffects.
+From HC.Proofs Require Import ProgEq TieEffects.
+Theorem C01_source_decision : forall q e k refs i, peq (src_handle_cache_hit q e k refs i) (handle_cache_hit q e k refs i).
+Proof. exact tie_handle_cache_hit. Qed.
 Print Assumptions C01_source_decision.
 
 (* the effect trees this property is stated about — which store / origin / clock operations happen, in which order, under
